@@ -461,9 +461,9 @@ def canon_module(text, root="Root"):
             if nm == "Optional":
                 inner = ty_of(args[0])
                 return inner if inner == ["none"] else ["opt", inner]
-            if nm in ("List", "list"):
+            if nm in ("List", "list", "Sequence"):
                 return ["list", None, None, ty_of(args[0])]
-            if nm in ("Dict", "dict"):
+            if nm in ("Dict", "dict", "Mapping"):
                 if ast.unparse(args[0]) != "str":
                     raise Unmodelled("dict key")
                 return ["dict", ty_of(args[1])]
